@@ -35,6 +35,8 @@ func c10(c *Ctx) {
 	c10R4(c, "R4")
 	c10R5(c, "R5")
 	c06R6(c, "R6")
+	c11R1(c, "R7/C11.R1")
+	sConfigClone(c, "R7/S-CFGCLONE")
 }
 
 func c10R1(c *Ctx, rule string) {
